@@ -87,6 +87,91 @@ RECURSIVE RunStates(_, _, _)
 RunStates(st, secs, i) ==      \* sequence of states BEFORE each section, plus the final one
     IF i > Len(secs) THEN <<st>> ELSE <<st>> \o RunStates(StepState(st, secs[i]), secs, i + 1)
 
+\* ---- FlexPath ----------------------------------------------------------------------------
+\* Bookkeeping: every construction call appends k >= 1 spine points and exactly k width/offset
+\* entries to EVERY element; the last entry is the requested target (or the previous value when
+\* none is given) and the new entries move monotonically from the previous value to it.
+FlexBookOK(prev, cur, call) ==
+    \* prev, cur: [spine_n, els: sequence of [n, hw, off]] ; call: [whas, ohas, w (per element), o]
+    /\ cur.spine_n >= prev.spine_n + 1
+    /\ Len(cur.els) = Len(prev.els)
+    /\ \A i \in DOMAIN cur.els :
+          /\ cur.els[i].n = cur.spine_n
+          /\ cur.els[i].hw = (IF call.whas THEN call.w[i] ELSE prev.els[i].hw)
+          /\ cur.els[i].off = (IF call.ohas THEN call.o[i] ELSE prev.els[i].off)
+          /\ cur.els[i].monotone
+
+\* Region of one element along a MANHATTAN spine, in QUADRUPLED user coordinates: spine points
+\* are multiples of 4, half-widths / offsets / extensions multiples of 2, so every boundary is on
+\* an even coordinate and the sample points (odd coordinates) are never on a boundary: the tests
+\* below are exact and need no guard band.
+\*   el == [hw (sequence, one per spine point), off, join, end, ext (<<begin, end>>)]
+Dir(a, b) == <<Sign(b[1] - a[1]), Sign(b[2] - a[2])>>
+LeftN(d) == <<-d[2], d[1]>>
+Scale2(v, k) == <<k * v[1], k * v[2]>>
+\* centre line: the spine displaced to the left by the offset, corners where the displaced
+\* segments intersect
+CentreLine(spine, off) ==
+    [k \in DOMAIN spine |->
+        LET dprev == IF k > 1 THEN Dir(spine[k - 1], spine[k]) ELSE Dir(spine[1], spine[2])
+            dnext == IF k < Len(spine) THEN Dir(spine[k], spine[k + 1]) ELSE dprev
+            shift == IF dprev = dnext THEN Scale2(LeftN(dnext), off)
+                     ELSE VAdd(Scale2(LeftN(dprev), off), Scale2(LeftN(dnext), off))
+        IN  VAdd(spine[k], shift)]
+\* along / across coordinates of q relative to the axis-parallel segment a -> b
+Along(a, b, q) == Dot(VSub(q, a), Dir(a, b))
+Across(a, b, q) == Abs(Cross(Dir(a, b), VSub(q, a)))
+SegLen(a, b) == Abs(b[1] - a[1]) + Abs(b[2] - a[2])
+CapExt(el, first) ==      \* how far the element reaches beyond its first / last centre point
+    LET hw == IF first THEN el.hw[1] ELSE el.hw[Len(el.hw)] IN
+    CASE el.end = "flush" -> 0
+      [] el.end = "halfwidth" -> hw
+      [] el.end = "extended" -> IF first THEN el.ext[1] ELSE el.ext[2]
+      [] el.end = "round" -> hw
+\* surely covered: strictly inside the (tapering) band of some segment, or inside an end cap
+SureInFlex(el, C, q) ==
+    \/ \E k \in 1..(Len(C) - 1) :
+          LET L == SegLen(C[k], C[k + 1])
+              a == Along(C[k], C[k + 1], q)
+              c == Across(C[k], C[k + 1], q)
+              lo == IF k = 1 THEN Max2(0, -CapExt(el, TRUE)) ELSE 0
+              hi == L - (IF k = Len(C) - 1 THEN Max2(0, -CapExt(el, FALSE)) ELSE 0)
+          IN  /\ L > 0 /\ a > lo /\ a < hi
+              /\ c * L < el.hw[k] * L + (el.hw[k + 1] - el.hw[k]) * a
+    \/ (el.end \in {"halfwidth", "extended"} /\
+         \/ (LET a == Along(C[1], C[2], q) IN a < 0 /\ a > -CapExt(el, TRUE)
+                                               /\ Across(C[1], C[2], q) < el.hw[1])
+         \/ (LET n == Len(C)
+                  a == Along(C[n - 1], C[n], q) - SegLen(C[n - 1], C[n])
+              IN  a > 0 /\ a < CapExt(el, FALSE) /\ Across(C[n - 1], C[n], q) < el.hw[n]))
+    \/ (el.end = "round" /\
+         (Dot(VSub(q, C[1]), VSub(q, C[1])) < el.hw[1] * el.hw[1]
+          \/ Dot(VSub(q, C[Len(C)]), VSub(q, C[Len(C)])) < el.hw[Len(C)] * el.hw[Len(C)]))
+\* squared distance from q to the axis-parallel segment a -> b lengthened by e0 / e1 at its ends
+Dist2Ext(a, b, q, e0, e1) ==
+    LET al == Along(a, b, q)
+        L == SegLen(a, b)
+        c == Across(a, b, q)
+        over == IF al < -e0 THEN -e0 - al ELSE IF al > L + e1 THEN al - L - e1 ELSE 0
+    IN  over * over + c * c
+\* surely not covered: farther from every segment than the join's reach, where the first / last
+\* segment is lengthened by its cap; for flush / half-width / extended caps also everything
+\* beyond the cap plane that is not near another segment
+SureOutFlex(el, C, q) ==
+    LET n == Len(C)
+        hwmax == LET RECURSIVE M(_)
+                     M(i) == IF i = 0 THEN 0 ELSE Max2(el.hw[i], M(i - 1))
+                 IN  M(Len(el.hw))
+        reach2 == IF el.join \in {"round", "bevel"} THEN hwmax * hwmax ELSE 2 * hwmax * hwmax
+        E0(k) == IF k = 1 THEN Max2(CapExt(el, TRUE), 0) ELSE 0
+        E1(k) == IF k = n - 1 THEN Max2(CapExt(el, FALSE), 0) ELSE 0
+        FarSeg(k) == Dist2Ext(C[k], C[k + 1], q, E0(k), E1(k)) > reach2
+        BeyondStart == Along(C[1], C[2], q) < -CapExt(el, TRUE)
+        BeyondEnd == Along(C[n - 1], C[n], q) > SegLen(C[n - 1], C[n]) + CapExt(el, FALSE)
+    IN  \/ \A k \in 1..(n - 1) : FarSeg(k)
+        \/ (el.end # "round" /\ BeyondStart /\ \A k \in 2..(n - 1) : FarSeg(k))
+        \/ (el.end # "round" /\ BeyondEnd /\ \A k \in 1..(n - 2) : FarSeg(k))
+
 \* ---- bounds on the measured observations --------------------------------------------
 \* a vertex is ON the curve when its distance is below 1e-6 of the feature size (1000 nano)
 OnCurveNano == 1000
